@@ -8,6 +8,7 @@ import (
 	"net/http"
 	"net/http/httptest"
 	"os"
+	"sort"
 	"strconv"
 	"strings"
 
@@ -87,8 +88,8 @@ func serve(waf coraza.WAF, sc Scenario) Obs {
 // ---------------------------------------------------------------------------
 // oracle
 
-// firstHeaderOp returns the index of the first operation that makes net/http
-// send the (final) header block, or len(prog).
+// firstHeaderOp returns the index of the first operation that makes the writer
+// send the final header block, or len(prog).
 func firstHeaderOp(prog []string, writer string) int {
 	for i, op := range prog {
 		switch {
@@ -101,15 +102,6 @@ func firstHeaderOp(prog []string, writer string) int {
 	return len(prog)
 }
 
-func has(prog []string, op string) bool {
-	for _, p := range prog {
-		if p == op {
-			return true
-		}
-	}
-	return false
-}
-
 // judge applies the property to one exchange. base is the same handler program
 // without the middleware on the same kind of writer. It returns a root-cause
 // signature ("" = holds) and a human text.
@@ -118,14 +110,21 @@ func judge(sc Scenario, base, mw Obs) (string, string) {
 		return "panic:" + mw.Panic, "the middleware panicked: " + mw.Panic
 	}
 	t := mw.Trace
+	inReq, inResp := t.requestStage(), t.responseStage()
+	if t.Stage == "END" {
+		// the transaction ended interrupted without any phase call having told the middleware
+		inReq, inResp = !mw.Exec.Entered, mw.Exec.Entered
+	}
 	switch {
-	case t.requestStage():
+	case inReq:
+		// "a request interrupted in a request phase never reaches the wrapped handler and the
+		// client receives the interruption's status with none of the handler's output"
 		if mw.Exec.Entered {
-			return "request-interruption:handler-entered:" + t.Stage,
+			return "request-interruption:handler-entered:stage=" + t.Stage,
 				fmt.Sprintf("the transaction interrupted at %s (%s, status %d) but the wrapped handler was invoked", t.Stage, t.Action, t.Status)
 		}
 		if mw.Client.Body != "" {
-			return "request-interruption:body-not-empty:" + t.Stage,
+			return "request-interruption:body-not-empty:stage=" + t.Stage,
 				fmt.Sprintf("the transaction interrupted at %s but the client received body %q", t.Stage, mw.Client.Body)
 		}
 		if t.Action == "drop" || t.Status == 0 {
@@ -136,14 +135,16 @@ func judge(sc Scenario, base, mw Obs) (string, string) {
 				fmt.Sprintf("the transaction interrupted at %s with action %s and status %d; the client received status %d", t.Stage, t.Action, t.Status, mw.Client.Status)
 		}
 		return "", ""
-	case t.responseStage():
+	case inResp:
+		// "a response interrupted in a response phase delivers none of the handler's body bytes"
 		if mw.Client.Body != "" {
 			return classifyLeak(sc, base, mw),
 				fmt.Sprintf("the transaction interrupted at %s (%s, status %d) but the client received %d handler body byte(s) %q (status %d)", t.Stage, t.Action, t.Status, len(mw.Client.Body), mw.Client.Body, mw.Client.Status)
 		}
 		return "", ""
 	}
-	// nothing interrupted: pass-through
+	// "When nothing interrupts, the handler reads exactly the client's request body and the
+	// client receives exactly the handler's status, headers and body"
 	if !mw.Exec.Entered {
 		return "passthrough:handler-not-entered:errs=" + short(t.Errs), "nothing interrupted but the wrapped handler was not invoked; transaction errors: " + t.Errs
 	}
@@ -151,7 +152,7 @@ func judge(sc Scenario, base, mw Obs) (string, string) {
 	for i, r := range mw.Exec.Reads {
 		exp := ""
 		if i == 0 {
-			exp = want
+			exp = want // the first read op reads to EOF, later ones must find nothing
 		}
 		if r != exp {
 			return classifyRead(sc, r, exp),
@@ -180,8 +181,49 @@ func short(s string) string {
 	return s
 }
 
+// relation names how got deviates from want.
+func relation(got, want string) string {
+	switch {
+	case got == want:
+		return "equal"
+	case got == "":
+		return "empty"
+	case strings.Contains(got, "+ERR:"):
+		return "read-error"
+	case strings.HasPrefix(want, got):
+		return "truncated"
+	case strings.HasSuffix(want, got):
+		return "prefix-lost"
+	case strings.HasPrefix(got, want):
+		return "bytes-appended"
+	case sortBytes(got) == sortBytes(want):
+		return "reordered"
+	}
+	return "other"
+}
+
+func sortBytes(s string) string {
+	b := []byte(s)
+	sort.Slice(b, func(i, j int) bool { return b[i] < b[j] })
+	return string(b)
+}
+
+// buffered says whether the configuration makes the middleware hold the response
+// body back for phase 4 (body access on and the handler's Content-Type listed).
+func buffered(sc Scenario) string {
+	if sc.Conf.RespAccess && sc.CT != "" && sc.CT == sc.Conf.Mime {
+		return "buffered/" + sc.Conf.RespAction
+	}
+	return "unbuffered"
+}
+
+// Signatures. Each known root cause has a class whose membership test is the
+// narrowest observable feature of that cause; everything else falls back to an
+// "unclassified:" signature made of the symptom and the configuration features it
+// depends on (C18_FULLKEY=1 appends the whole case instead).
+
 func classifyLeak(sc Scenario, base, mw Obs) string {
-	// Root cause 1: Write calls WriteHeader(200) implicitly, the phase-3 rules
+	// Root cause: Write calls WriteHeader(200) implicitly, the phase-3 rules
 	// interrupt inside it, and Write carries on handing its bytes downstream.
 	// Feature: interruption at P3, the first header-sending operation of the
 	// program is a body write, and exactly that operation's bytes leaked.
@@ -203,11 +245,15 @@ func classifyLeak(sc Scenario, base, mw Obs) string {
 			return "response-interruption:body-leaked:phase3-interruption-inside-implicit-WriteHeader-of-Write"
 		}
 	}
-	return fmt.Sprintf("response-interruption:body-leaked:stage=%s:unclassified:%s", mw.Trace.Stage, ukey(sc))
+	return fmt.Sprintf("unclassified:response-interruption:body-leaked:stage=%s:%s:leaked=%s%s", mw.Trace.Stage, buffered(sc), relation(mw.Client.Body, base.Client.Body), full(sc))
 }
 
 func classifyRead(sc Scenario, got, want string) string {
-	return "passthrough:request-body:unclassified:" + ukey(sc)
+	size := "below-limit"
+	if sc.Body.Size >= sc.Conf.ReqLimit {
+		size = "at-or-above-limit"
+	}
+	return fmt.Sprintf("unclassified:passthrough:request-body:%s:access=%v:action=%s:mem-limit-set=%v:size=%s%s", relation(got, want), sc.Conf.ReqAccess, sc.Conf.ReqAction, sc.Conf.ReqMem > 0, size, full(sc))
 }
 
 func classifyDiff(sc Scenario, base, mw Obs) string {
@@ -219,19 +265,21 @@ func classifyDiff(sc Scenario, base, mw Obs) string {
 		// WriteHeader, which derails status, informational and header handling alike.
 		return "passthrough:1xx-informational-WriteHeader-taken-as-final"
 	}
-	field := "body"
+	field := "body=" + relation(mw.Client.Body, base.Client.Body)
 	switch {
 	case mw.Client.Status != base.Client.Status:
-		field = "status"
+		field = fmt.Sprintf("status:want=%d:got=%d", base.Client.Status, mw.Client.Status)
 	case !sameInfos:
 		field = "infos"
 	case mw.Client.Header != base.Client.Header:
 		field = "header"
 		if mw.Client.Body == base.Client.Body && lateHeadersOnly(sc, base, mw) {
+			// Root cause: the downstream WriteHeader is deferred, so the live header map
+			// keeps changing after the handler's WriteHeader.
 			return "passthrough:header-changed-after-WriteHeader-reaches-client"
 		}
 	}
-	return "passthrough:" + field + ":unclassified:" + ukey(sc)
+	return fmt.Sprintf("unclassified:passthrough:%s:%s%s", field, buffered(sc), full(sc))
 }
 
 // lateHeadersOnly reports whether the two header blocks differ exactly by X-A
@@ -273,14 +321,13 @@ func key(sc Scenario) string {
 	return string(b)
 }
 
-// ukey is the tail of an "unclassified" signature: the whole case, or (triage
-// aid, C18_COARSE=1) only its coarse features.
-func ukey(sc Scenario) string {
-	if os.Getenv("C18_COARSE") != "" {
-		return fmt.Sprintf("coarse:%s:writer=%s:ct=%s:rule=%v:req=%v/%s/%d:resp=%v/%s/%s:body=%v:ops=%d", sc.Space, sc.Writer, sc.CT, sc.Conf.Rule, sc.Conf.ReqAccess, sc.Conf.ReqAction, sc.Conf.ReqMem,
-			sc.Conf.RespAccess, sc.Conf.RespAction, sc.Conf.Mime, sc.Body, len(sc.Prog))
+// full is a triage aid: with C18_FULLKEY=1 every unclassified signature carries
+// the whole case, so that every failing case is listed separately.
+func full(sc Scenario) string {
+	if os.Getenv("C18_FULLKEY") != "" {
+		return ":" + key(sc)
 	}
-	return key(sc)
+	return ""
 }
 
 // ---------------------------------------------------------------------------
@@ -436,12 +483,16 @@ func run(c *runner.Ctx) {
 			return
 		}
 		c.Count("programs_resp", 1)
+		c.Heartbeat(Scenario{Space: "resp", CT: "text/plain", Body: smallBody, Prog: p, Writer: "strict", Conf: rconfs[1]})
 		for _, wr := range writers {
 			for _, ct := range []string{"", "text/plain"} {
 				sc := Scenario{Space: "resp", CT: ct, Body: smallBody, Prog: p, Writer: wr, Conf: Conf{RespLimit: respLimit}}
 				base := serve(nil, sc)
 				c.Count("baseline_runs", 1)
 				for _, cf := range rconfs {
+					if ct == "" && cf.Mime != "text/plain" {
+						continue // no Content-Type at all: the MIME list cannot matter twice over
+					}
 					sc.Conf = cf
 					one(sc, base)
 				}
@@ -458,6 +509,7 @@ func run(c *runner.Ctx) {
 				continue
 			}
 			c.Count("programs_x_bodies_req", 1)
+			c.Heartbeat(Scenario{Space: "req", CT: "text/plain", Body: b, Prog: p, Writer: "strict", Conf: qconfs[1]})
 			for _, wr := range writers {
 				sc := Scenario{Space: "req", CT: "text/plain", Body: b, Prog: p, Writer: wr, Conf: Conf{RespLimit: respLimit}}
 				base := serve(nil, sc)
